@@ -161,6 +161,14 @@ def check_generic_lookup(ctx, prog):
             continue
         # must be a variable i, and the return must be control-dependent on
         # strcmp(regArray[i], itemName) == 0 with the same i
+        cursor = False
+        if v.k == 'BinaryOperator' and v.get('op') == '-' and strip(v.ch[0]).k == 'DeclRefExpr' and \
+                strip(v.ch[1]).k == 'DeclRefExpr' and strip(v.ch[1])['ref'].get('kind') == 'parm' and \
+                strip(v.ch[1])['ref'].get('index') == 0 and \
+                all(k == 'decl' for k, _ in __import__('engine.dataflow', fromlist=['x']).def_sites(f, strip(v.ch[1])['ref']['id'])):
+            # a row cursor walked over the table: the index returned is `cursor - table`, the row compared `*cursor`
+            cursor = True
+            v = strip(v.ch[0])
         if v.k != 'DeclRefExpr':
             ok_all = False
             detail = 'returns %s' % render(v)
@@ -177,6 +185,13 @@ def check_generic_lookup(ctx, prog):
                 if n.k == 'CallExpr' and n.get('callee') == 'strcmp':
                     a, b = strip(n.ch[1]), strip(n.ch[2])
                     for x, y in ((a, b), (b, a)):
+                        if cursor and ((x.k == 'UnaryOperator' and x.get('op') == '*' and strip(x.ch[0]).get('ref', {}).get('id') == i_id) or
+                                       (x.k == 'ArraySubscriptExpr' and strip(x.ch[0]).get('ref', {}).get('id') == i_id and
+                                        strip(x.ch[1]).get('v') == 0)) \
+                                and y.k == 'DeclRefExpr' and y['ref']['kind'] == 'parm' and y['ref']['index'] == 1:
+                            good = True
+                        if cursor:
+                            continue
                         if x.k == 'ArraySubscriptExpr' and strip(x.ch[1]).get('ref', {}).get('id') == i_id \
                                 and strip(x.ch[0]).get('ref', {}).get('kind') == 'parm' \
                                 and strip(x.ch[0])['ref']['index'] == 0 \
@@ -203,8 +218,18 @@ def check_generic_lookup(ctx, prog):
     detail = ''
     for r in found:
         v = strip(r.ch[0])
+        is_cursor = v.k == 'BinaryOperator'
+        if is_cursor:
+            tab = strip(v.ch[1])
+            v = strip(v.ch[0])
         d = [x for x in decls if x['id'] == v['ref']['id']]
-        if not d or d[0].get('init', -1) == -1 or strip(f.nodes[d[0]['init']]).get('v') != 0:
+        if is_cursor:
+            # the cursor starts at the table itself
+            init = strip(f.nodes[d[0]['init']]) if d and d[0].get('init', -1) != -1 else None
+            if init is None or init.k != 'DeclRefExpr' or init['ref'].get('id') != tab['ref']['id']:
+                ok = False
+                detail = 'the row cursor does not start at the first row of the table'
+        elif not d or d[0].get('init', -1) == -1 or strip(f.nodes[d[0]['init']]).get('v') != 0:
             ok = False
             detail = 'loop index does not start at 0'
         for n in f.body.walk():
